@@ -5,16 +5,72 @@ import os
 
 VERIF = os.path.dirname(os.path.dirname(os.path.abspath(__file__)))
 
+CORR = ("Trusted: Coq 8.16.1 kernel; ExtrOcamlBasic extraction; the Go/OCaml harness; uint = 64 bits. The model is tied to "
+        "the code by regenerated constants (genfacts) and by running extracted model and implementation on the same cases, not "
+        "by a refinement proof from Go source. ")
+
 CLAIMED = {
+    "C01": dict(
+        text="Theorems C01_stream, C01_single, C01_crc (axiom-free): over the model of the framing state machine and GetMessage, every "
+             "typed message is exactly one valid frame (bit-serial CRC-24Q specification) of its type, for all byte streams; the "
+             "table-driven uint32 Hash is proved equal to the LFSR specification. Correspondence: ~4-5k mixed/hostile streams and "
+             "single buffers per run through the real HandleMessages/GetMessage and the extracted model; the extracted valid_frame "
+             "specification judges every typed message the implementation delivers.",
+        note=CORR + "go-crc24q is modelled and compared on every frame.", design="5/C01",
+        technique="Coq proof (case analysis of the framing phases, CRC linearity) + extracted-model correspondence"),
+    "C02": dict(
+        text="Theorem C02_lossless (axiom-free): for every input the modelled stream handler returns, and the delivered raw bytes "
+             "concatenate to the input with no empty message (induction on fuel with the invariant delivered++pushback++unread = "
+             "input). Correspondence on ~7k streams incl. all strings over {d3,00,01,3e} up to length 6, every truncation offset, "
+             "channel capacities {0,1,2,64}^2 and producer/consumer delays; closing is observed on the real channel.",
+        note=CORR + "Partial: producer/consumer timing of the real runtime is sampled; the schedule-quantified statement is about "
+             "the sequential stage function.", design="5/C02",
+        technique="Coq proof (invariant by induction) + extracted-model correspondence"),
+    "C07": dict(
+        text="Theorems C07_stream, C07_single (axiom-free): the modelled stream handler and GetMessage return normally (never Panic, "
+             "fuel S(length input) suffices) for arbitrary bytes. The harness runs every CRC-valid frame of the 16 decodable types "
+             "over boundary/small payload lengths (thorough: all 1..1023) with random/ones/zeros/mask-heavy/illegal-timestamp bodies "
+             "through HandleMessages, GetMessage, Analyse and String at both log levels under recover and a deadline.",
+        note=CORR + "Partial: the theorems cover framing and GetMessage; the decoders and String are covered by the model "
+             "correspondence and the recover()-guarded runs; bounded time is a deadline, not a proof.", design="5/C07",
+        technique="Coq proof of totality + recover-guarded exhaustive-length runs"),
+    "C13": dict(
+        text="Theorems C13_forwarding, C13_resume, C13_stop_zero_or_error, C13_stop_silent (axiom-free) over a model of the file "
+             "handler's read loop with an explicit clock: bytes read before the stop are forwarded exactly once in order wherever "
+             "interruptions fall; single/double EOF or timeout within the tolerance never stop the loop; tolerance zero, other errors "
+             "and lasting silence do. Correspondence: the real filehandler.Handle over a scripted reader with interruptions at "
+             "every framing phase boundary.",
+        note=CORR + "Partial: wall-clock behaviour between the margins (pauses 0 or 4x tolerance) is not explored.", design="5/C13",
+        technique="Coq proof (induction over the read script) + scripted-reader correspondence"),
     "C14": dict(
         text="Theorems C14_unsigned / C14_signed / C14_locality (Coq, axiom-free) state the property for all buffers, "
              "offsets and widths over a model of GetBitsAsUint64/GetBitsAsInt64 that includes uint64/int64 wrap and "
              "index panics; the extracted model and the real functions are run on the same ~150k fields per quick run "
              "(exhaustive offsets x widths on pattern buffers) and the extracted specification is evaluated on the "
              "implementation's results.",
-        note="Trusted: Coq kernel, ExtrOcamlBasic extraction, the Go/OCaml harness; uint = 64 bits. The tie between "
-             "model and code is the correspondence run, not a refinement proof from Go source.",
-        design="5/C14", technique="Coq proof (induction over the bit loop) + extracted-model correspondence"),
+        note=CORR, design="5/C14", technique="Coq proof (induction over the bit loop) + extracted-model correspondence"),
+    "C18": dict(
+        text="Theorem C18_last_n (axiom-free, polymorphic): for every capacity N>=1 and every addition sequence the modelled queue's "
+             "snapshot is the last min(N, added) elements in order and it never holds more than N (invariant by induction). "
+             "Correspondence: all add/snapshot sequences up to length 8 for capacities 1..4 (thorough 12 / 1..8), runs of 10^5 adds; "
+             "concurrent adders/readers under the race detector with every snapshot checked on the spot.",
+        note=CORR + "Partial: the concurrent half (RWMutex atomicity, linearisation) is the race detector's and the snapshot oracle's "
+             "verdict on sampled schedules.", design="5/C18",
+        technique="Coq proof (invariant by induction) + exhaustive small-sequence correspondence + race detector"),
+    "C19": dict(
+        text="Theorems C19_escaped, C19_sanitise (axiom-free): in the page model every traffic-derived part passes through the "
+             "sanitiser and sanitised text contains neither '<' nor '>'. The harness calls the real Status() with crafted buffers and "
+             "queue contents, cuts the page along the template read from the source and requires every traffic-derived hole to be "
+             "markup-free and the message list to be the escaped displays; the built proxy binary relays 40 sessions (valid, "
+             "malformed CRC-valid, hostile, text) over loopback in both directions and must deliver byte-identical data.",
+        note=CORR + "Partial: TCP/TLS/statusreporter are the runtime; one client session at a time; relay integrity depends on C07.",
+        design="5/C19", technique="Coq proof (sanitiser) + in-process page dissection + loopback relay differential"),
+    "C20": dict(
+        text="Theorems C20_consistent, C20_closed_forms: the complete table (4098 rows) produced on every run by running the real "
+             "classification functions, decoders, timestamp extraction, Analyse dispatch and String on every type and sentinel is "
+             "checked row by row by the kernel (vm_compute over a finite domain, bound stated in the theorem).",
+        note="Trusted: Coq kernel incl. vm_compute; the dumper harness/cmd/classdump and the determinism of the functions (C15).",
+        design="5/C20", technique="Coq proof over a table regenerated from the running code (complete enumeration)"),
 }
 
 NOT_YET = {}
